@@ -69,6 +69,13 @@ func hostileALPN(r *kernel.Run, srv *World, registered *Ident) ([]string, string
 		list, class = []string{prefix + Pick2(tp, "0", "00", "7", "-", "a")}, "shorter-than-chunk-header"
 	case 2:
 		list, class = []string{prefix + Pick2(tp, "xx-", "0x-", "---", "99-", "0a-") + "AAAA"}, "non-digit-header"
+		if tp.Draw(3) == 0 {
+			// a well-formed header with a chunk number no honest client produces
+			list, class = []string{prefix + Pick2(tp, "99999-", "4294967296-", "900000000000000-", "18446744073709551616-", "-1-", "007-") + "AAAA"}, "huge-chunk-number"
+			if tp.Draw(2) == 0 {
+				list = append([]string{prefix + "00-AAAA"}, list...)
+			}
+		}
 	case 3:
 		list, class = []string{prefix + "00-" + Pick2(tp, "!!!!", "====", "a", "ab\x00cd", "é")}, "non-base64"
 	case 4:
@@ -97,6 +104,9 @@ func hostileALPN(r *kernel.Run, srv *World, registered *Ident) ([]string, string
 		// a valid, signed fetch request carrying arbitrary re-wrapped ciphertext under a registered key ID
 		sp := HonestSpec(NewIdent("f"))
 		bi := &wrapping.BlobInfo{Ciphertext: tp.Bytes(tp.Range(0, 40)), KeyInfo: &wrapping.KeyInfo{KeyId: registered.KeyId}}
+		if tp.Draw(3) == 0 {
+			bi.KeyInfo = nil // the optional part of the envelope left out
+		}
 		sp.Rewrapped, _ = proto.Marshal(bi)
 		if tp.Draw(2) == 0 {
 			sp.Rewrapped = tp.Bytes(tp.Range(1, 50))
